@@ -161,6 +161,7 @@ impl Execution {
         let state = RefCell::new(ExecutionState::new(config.clone(), Rc::clone(&self.scheduler)));
 
         init_panic_hook(config.clone());
+        crate::runtime::failure::start_execution(config);
         CurrentSchedule::init(self.initial_schedule.clone());
         UNGRACEFUL_SHUTDOWN_CONFIG.set(config.ungraceful_shutdown_config);
 
